@@ -387,6 +387,7 @@ def run_parallel(ck, tasks, jobs=None):
     pending = list(enumerate(tasks))
     running = {}
     results = {}
+    retried = set()
 
     def child(idx, name, fn, conn):
         try:
@@ -443,6 +444,11 @@ def run_parallel(ck, tasks, jobs=None):
         for idx in done:
             pr, pc, name = running.pop(idx)
             pr.join(5)
+            r = results.get(idx)
+            if isinstance(r, dict) and "crash" in r and ("no result from child" in r["crash"] or "died" in r["crash"]) and idx not in retried:
+                retried.add(idx)                       # a child that vanished without a verdict (e.g. a solver library crash) is run once more
+                del results[idx]
+                pending.append((idx, tasks[idx]))
         if any(isinstance(results.get(i), dict) and results[i].get("violations") for i in done) and (running or pending):
             # a harness has reproduced a counterexample on the real code: the verdict is VIOLATION; the other harnesses are stopped
             for idx, (pr, pc, name) in list(running.items()):
